@@ -9,8 +9,10 @@ Definition zz_eqb (a b : Z * Z) : bool := (fst a =? fst b) && (snd a =? snd b).
 Definition meta_ok (c : bytes * Z * Z * list (Z * Z * bytes) * list (Z * bytes) * bytes * list (Z * Z) * Z) : bool :=
   let '(prefix, nf, nc, tab, rsegs, trailer, gcounts, gtotal) := c in
   let segs := map mkseg rsegs in
-  list_eqb zz_eqb (output_inputs prefix nf nc (lookup tab) segs) gcounts
-  && (total_bytes prefix nf nc (lookup tab) segs trailer =? gtotal).
+  (* substituteFinalPaths / accurateFinalByteCount write escapeFinalPath(path) (fix b608b91) *)
+  let pathOf := fun k i => escape_final (lookup tab k i) in
+  list_eqb zz_eqb (output_inputs prefix nf nc pathOf segs) gcounts
+  && (total_bytes prefix nf nc pathOf segs trailer =? gtotal).
 Definition check_meta := mismatches meta_ok.
 
 (* generateMetadataJSON: (results (path, metadata chunk), Go listed (path, chunk) in order) *)
@@ -21,8 +23,7 @@ Definition check_outs := mismatches outs_ok.
 
 (* helpers.QuoteForJSON: (asciiOnly, text, Go output).  Besides the model's
    bytes the property's predicate is evaluated: the RFC 8259 string parser
-   reads the Go output back as the UTF-16 units of the text (whenever the
-   theorem's hypothesis holds: asciiOnly, or no invalid byte) *)
+   reads the Go output back as the UTF-16 units of the text *)
 Definition ou_eqb (a b : option (list Z * bytes)) : bool :=
   match a, b with
   | Some (u, r), Some (u', r') => zlist_eqb u u' && zlist_eqb r r'
@@ -32,7 +33,7 @@ Definition ou_eqb (a b : option (list Z * bytes)) : bool :=
 Definition quote_ok (c : bool * bytes * bytes) : bool :=
   let '(ascii, s, g) := c in
   zlist_eqb (quote_for_json ascii s) g
-  && (if ascii || wtf8_ok (length s) s then ou_eqb (jstring g) (Some (units s, [])) else true).
+  && ou_eqb (jstring g) (Some (units s, [])).
 Definition check_quote := mismatches quote_ok.
 
 (* a whole metafile of api.Build: (asciiOnly, output paths by index, inputs,
